@@ -74,6 +74,9 @@ def seatings(n, variant):
         else:
             seats = [base[(b + 1 + i) % n] for i in range(n)]     # engine player 0 is the small blind, n-1 the button
         out.append((seats, base[b]))
+        if variant == 1 and n == 2:
+            # heads-up with the button marker on an empty seat: the small blind is the button, whoever the marker is nearest to
+            out.append((seats, 4 if b == 0 else 8))
         if variant == 1 and n >= 3:
             # dead button: the button is on an empty seat between the last player to act and the small blind
             last, sb = seats[n - 1], seats[0]
